@@ -65,7 +65,8 @@ class DictMapper(RawDocumentMapper):
                     target.attrs[-1].restrictions.max_occurs = sys.maxsize
         else:
             if isinstance(value, dict):
-                inner = cls.build_class(value, name)
+                # A json document may have an empty key
+                inner = cls.build_class(value, name or "value")
                 inner.parent = target
                 attr_type = AttrType(qname=inner.qname, forward=True)
                 target.inner.append(inner)
